@@ -55,14 +55,13 @@ def correspondence(ctx, model_ok):
               '(harness.gen.random_circuit: n-ary 2-5 operands, dead logic, shuffled gate order) x output selection '
               '(default None, explicit index lists incl. empty, repeated, negative and out-of-range indices), '
               '8% malformed netlists (dangling operand, too few / too many operands) for the error kinds; '
-              'compared: EXACT clause list of tseytin_transformation(c, outs).get_raw() or the exception kind; '
+              'compared: EXACT clause list of tseytin_transformation(c, outs).get_raw() and the label -> variable map saved_lits (items in insertion order), or the exception kind; '
               'plus every live _process_* function on literal vectors of length 0..6 against the regenerated '
               'templates; non-trivial = at least one non-INPUT gate is encoded; distinct = hash of the case')
     cases = list(tc.fixed_corpus()) + list(tc.exhaustive_small(False))
     if not ctx.quick:
         cases += list(tc.exhaustive_small(True))
-    for c in cases:
-        c['raw'] = list(tc.run_tseytin(c['circuit'], c['outs']))
+    cases = [tc.make_case(ctx.rng, c['circuit'], c['outs']) for c in cases]
     r.count('source', 'fixed corpus + exhaustive small netlists', len(cases))
     for _ in range(ctx.n(1500, 8000)):
         cases.append(tc.random_case(ctx.rng))
